@@ -86,6 +86,7 @@ def run_c26(ctx):
     if not ctx.quick():
         ctx.mc("AuditLogMC", "AuditLog.MCThorough.cfg", workers=8, timeout=2400)
         ctx.mc("AuditLogMC", "AuditLog.MC3.cfg", workers=8, timeout=2400)
+        ctx.mc("AuditLogMC", "AuditLog.MC23.cfg", workers=8, timeout=3000)
     vlib.write_ndjson(ctx.path("kinds.ndjson"), kinds)
 
     # 2. drive the real middleware
@@ -97,23 +98,49 @@ def run_c26(ctx):
     if not trace:
         raise vlib.Infra("empty trace")
 
-    # 3. coverage of what the property quantifies over (measured on the trace; exit 2 if missing)
     runs = []
     for e in trace:
         if e["ev"] == "reset":
             runs.append([])
         runs[-1].append(e)
     spec_methods = set(k["m"] for k in kinds)
-    nontrivial = 0
+    # a storage.Storage method the spec does not know (or vice versa): the model is out of date
     for evs in runs:
-        head = evs[0]
-        reflected = set(head["methods"]) - {"Start", "Stop"}
+        reflected = set(evs[0]["methods"]) - {"Start", "Stop"}
         if reflected != spec_methods:
-            # a storage.Storage method the spec does not know (or vice versa): the model is out of date
-            vlib.write_ndjson(ctx.path("replay.ndjson"), [head])
+            vlib.write_ndjson(ctx.path("replay.ndjson"), [evs[0]])
             ctx.violation(ctx.path("replay.ndjson"), "storage.Storage methods %s differ from AuditLogCore!StorageMethods %s" %
                           (sorted(reflected - spec_methods), sorted(spec_methods - reflected)))
             return "method table mismatch"
+
+    # 3. trace validation against the model of the code (open deviations enabled)
+    n, r, mism, finds = _tv26(ctx, ctx.path("trace.ndjson"), ctx.deviations("D-C26"))
+    ctx.traces += len(runs)
+    ctx.events += r.depth - 1
+    ctx.states += r.distinct
+    ctx.transitions += r.generated
+    ctx.log("TV AuditLogTrace: %d of %d events consumed, %d findings, %d mismatches, %.1fs" %
+            (r.depth - 1, n, len(finds), len(mism), r.wall))
+    ctx.sample(trace[2])
+    ctx.sample(next(e for e in trace if e["ev"] == "invoke"))
+    ctx.sample(next(e for e in trace if e["ev"] == "inner"))
+    for f in finds:
+        line = trace[f["l"] - 1]
+        ctx.finding(f["tag"], {"method": f["method"], "call": f["id"], "return_event": line})
+    for m in mism:
+        lo = max(0, m["l"] - 40)
+        vlib.write_ndjson(ctx.path("replay.ndjson"), trace[lo:m["l"]])
+        ctx.violation(ctx.path("replay.ndjson"),
+                      "trace line %d (%s) is not a step of AuditLog.tla: event %s, model state %s" %
+                      (m["l"], m["ev"], json.dumps(trace[m["l"] - 1])[:700], json.dumps(m)[:700]))
+
+    if mism:
+        return "violation reported"
+
+    # 4. coverage of what the property quantifies over (measured on the trace; exit 2 if missing)
+    nontrivial = 0
+    for evs in runs:
+        head = evs[0]
         invoked = set(e["method"] for e in evs if e["ev"] == "invoke")
         if invoked != spec_methods:
             raise vlib.Infra("run %s did not invoke %s" % (head["run"], sorted(spec_methods - invoked)))
@@ -138,39 +165,17 @@ def run_c26(ctx):
     if nontrivial < 2:
         raise vlib.Infra("no interleaved calls in the workload")
 
-    # 4. trace validation against the model of the code (open deviations enabled)
-    n, r, mism, finds = _tv26(ctx, ctx.path("trace.ndjson"), ctx.deviations("D-C26"))
-    ctx.traces += len(runs)
-    ctx.events += r.depth - 1
-    ctx.states += r.distinct
-    ctx.transitions += r.generated
-    ctx.log("TV AuditLogTrace: %d of %d events consumed, %d findings, %d mismatches, %.1fs" %
-            (r.depth - 1, n, len(finds), len(mism), r.wall))
-    ctx.sample(trace[2])
-    ctx.sample(next(e for e in trace if e["ev"] == "invoke"))
-    ctx.sample(next(e for e in trace if e["ev"] == "inner"))
-    for f in finds:
-        line = trace[f["l"] - 1]
-        ctx.finding(f["tag"], {"method": f["method"], "call": f["id"], "return_event": line})
-    for m in mism:
-        lo = max(0, m["l"] - 40)
-        vlib.write_ndjson(ctx.path("replay.ndjson"), trace[lo:m["l"]])
-        ctx.violation(ctx.path("replay.ndjson"),
-                      "trace line %d (%s) is not a step of AuditLog.tla: event %s, model state %s" %
-                      (m["l"], m["ev"], json.dumps(trace[m["l"] - 1])[:700], json.dumps(m)[:700]))
-
     # 5. binding self-test: a corrupted copy of the first run must be rejected
-    if not mism:
-        first = runs[0][:1500]
-        for name, corrupt in (("inner outcome flipped", _corrupt_outcome), ("START entry dropped", _corrupt_drop)):
-            bad = corrupt([dict(e) for e in first])
-            vlib.write_ndjson(ctx.path("selftest.ndjson"), bad)
-            _, _, m2, _ = _tv26(ctx, ctx.path("selftest.ndjson"), ctx.deviations("D-C26"), timeout=600)
-            if not m2:
-                raise vlib.Infra("binding self-test failed: corrupted trace (%s) was accepted" % name)
-            if ctx.quick():
-                break
-        ctx.extra["binding_selftest"] = "corrupted traces rejected"
+    first = runs[0][:1500]
+    for name, corrupt in (("inner outcome flipped", _corrupt_outcome), ("START entry dropped", _corrupt_drop)):
+        bad = corrupt([dict(e) for e in first])
+        vlib.write_ndjson(ctx.path("selftest.ndjson"), bad)
+        _, _, m2, _ = _tv26(ctx, ctx.path("selftest.ndjson"), ctx.deviations("D-C26"), timeout=600)
+        if not m2:
+            raise vlib.Infra("binding self-test failed: corrupted trace (%s) was accepted" % name)
+        if ctx.quick():
+            break
+    ctx.extra["binding_selftest"] = "corrupted traces rejected"
 
     ctx.assumptions += [
         "inner storage is a generated fake; outcomes (success / error text) are chosen by the seeded workload",
